@@ -3,5 +3,6 @@ EXTENDS MC_Config
 mcOptSets == { [dir |-> "/abs/snaps", filename |-> "", ext |-> ""],
                [dir |-> "/abs/snaps", filename |-> "custom", ext |-> ""],
                [dir |-> "/abs/snaps", filename |-> "", ext |-> ".txt"],
-               [dir |-> "/abs/snaps", filename |-> "custom", ext |-> ".txt"] }
+               [dir |-> "/abs/snaps", filename |-> "custom", ext |-> ".txt"],
+               [dir |-> "/abs/snaps", filename |-> "", ext |-> "html"] }   \* an extension without a dot is used as given
 =============================================================================
